@@ -93,6 +93,22 @@ def from_kani(h, pb, scratch):
                 binds.append('%s=float:%d' % (v, struct.unpack('<Q', bytes((val['bytes'] + [0] * 8)[:8]))[0]))
             else:
                 binds.append('%s=bool:%d' % (v, 1 if val['bytes'] and val['bytes'][0] else 0))
+    elif kind == 'float_member':
+        # which member was refuted is named in the failed check; operands are the harness's x (and y)
+        failed = ' '.join(pb.get('failed_checks') or [])
+        import re as _re
+        mm = _re.search(r'EvalexprFloat<N>>::(\w+)\(&x(, &y)?\)', failed)
+        if not mm:
+            return None
+        name = mm.group(1)
+        fn = name if name in ('floor', 'round', 'ceil') else 'math::' + name
+        fbits = [struct.unpack('<Q', bytes((v['bytes'] + [0] * 8)[:8]))[0] for v in vals]
+        if mm.group(2) and len(fbits) >= 2:
+            expr = '%s(x, y)' % fn
+            binds = ['x=float:%d' % fbits[0], 'y=float:%d' % fbits[1]]
+        else:
+            expr = '%s(x)' % fn
+            binds = ['x=float:%d' % fbits[0]]
     elif kind == 'expr':
         return dec[1](h, vals, scratch)
     else:
